@@ -175,6 +175,14 @@ Proof.
   intros j H1 H2. replace j with (pred n) by lia. exact Hp.
 Qed.
 
+Lemma no_cancel_b vw n :
+  forallb (fun i => match vw i with Some c => negb (mem cancel_marker c) | None => true end) (seq 0 n) = true ->
+  no_cancel vw n.
+Proof.
+  rewrite forallb_forall. intros H i cont Hi Hv. specialize (H i). rewrite Hv in H.
+  apply negb_true_iff. apply H. apply in_seq. lia.
+Qed.
+
 (* the walk for one location only adds cache entries for that location *)
 Lemma walk_other_loc vw ex loc p loc' : loc <> loc' -> forall k last c cn j,
   cache_get (snd (fst (walk vw ex loc p k last c cn))) loc' j = cache_get c loc' j.
